@@ -218,6 +218,14 @@ def run(tier, seed):
     for rep in tlc.validate_traces("Trace_C01.tla", shards, jobs=16, heap="3g"):
         cx.add_report(rep)
         cx.cov["invariant_evaluations"] = cx.cov.get("invariant_evaluations", 0) + rep["extra"]["nchecked"]
+    for sh in shards:
+        if any('"fn": "F1C"' in ln and '"mid"' in ln for ln in open(sh)):
+            cx.selftest_corruption("Trace_C01.tla", sh, lambda ev: ev["y"] if ev["fn"] == "F1C" and ev["cls"] == "mid" else None, "Definition")
+            break
+    for ln in open(raw):
+        ev = json.loads(ln)
+        if ev["cls"] in ("winLoIn", "hiEdgeHi", "quarterLo") and len(cx.cov["samples"]) < 4:
+            cx.sample({"fn": ev["fn"], "class": ev["cls"], "x": [core.dy(a).hex() for a in ev["a"]], "y": core.dy(ev["y"])})
     for ln in open(raw):
         ev = json.loads(ln)
         cx.evaluations += 1
